@@ -54,8 +54,8 @@ ASSUMPTIONS = [
     "observed on the pinned tree: err = 0.04..0.27 A^2, err(A)/err(A/2) = 3.7..4, convention ratio 0.84..1.19",
     "CPU tensors; D in {2, 3}",
 ]
-MIN_NONTRIVIAL = {"quick": 2500, "thorough": 8000}
-MIN_OUTCOMES = {"quick": 5000, "thorough": 15000}
+MIN_NONTRIVIAL = {"quick": 5000, "thorough": 12000}
+MIN_OUTCOMES = {"quick": 8000, "thorough": 17000}
 MIN_SUB_TRACES = {
     "compose-affine": 1000, "compose-identity": 200, "compose-flag": 100, "bracket-antisym": 100,
     "bracket-bilinear": 500, "bch-commuting": 500, "bch-affine-series": 500, "bch-affine-error": 50,
@@ -332,12 +332,21 @@ def case_compose_flag(case) -> Result:
         exp = fa.compose_ref(uu[i], vv[i], ac)
         other = fa.compose_ref(uu[i], vv[i], not ac)
         tol = C * EPS[dtype] * (float(np.abs(uu[i]).max()) + float(np.abs(vv[i]).max()) + max(shape) * max_step(vv[i]) * (1.0 + float(np.abs(fa.to_samples(uu[i], ac)).max())))
-        err = float(np.abs(o[i] - exp).max())
+        # judged only where x + u(x) stays inside the sample hull: the property says nothing about extrapolation
+        # (padding) beyond the first / last sample
+        idx = fa.index_points(shape) + np.moveaxis(fa.to_samples(uu[i], ac), 0, -1)
+        nx = fa.sizes_xfirst(shape)
+        inside = np.all((idx >= -1e-9) & (idx <= nx - 1.0 + 1e-9), axis=-1)
+        if not inside.all():
+            r.undef.append("displaced-samples-outside-the-sample-hull-not-judged")
+        if inside.sum() < 0.5 * inside.size:
+            continue
+        err = float(np.abs(o[i] - exp)[:, inside].max())
         r.judged += 1
-        if float(np.abs(exp - other).max()) > 1e3 * tol:
+        if float(np.abs(exp - other)[:, inside].max()) > 1e3 * tol:
             r.nontriv.append(h64("cf", case["shape"], ac, pairs[i], dtype))
         if not np.isfinite(err) or err > tol:
-            eo = float(np.abs(o[i] - other).max())
+            eo = float(np.abs(o[i] - other)[:, inside].max())
             r.bad(
                 f"C13/compose-flag/{tail}/mismatch",
                 f"max |compose_flows - reference(ac={ac})| = {err:.3e} > tol {tol:.2e}; distance to the reference of the other convention {eo:.3e} (pair {pairs[i]}, shape {shape})",
@@ -803,7 +812,7 @@ def cases_of(shard):
     elif kind == "bracket-bilinear":
         for N in (1, 2):
             for kw in [shard["kw"]] if (N == 1 or shard["kw"] == "default") else []:
-                for v1, v2 in (itertools.combinations if tier == "quick" else itertools.permutations)(BRACKET_FIELDS, 2):
+                for v1, v2 in (itertools.permutations if (tier == "thorough" and kw == "default") else itertools.combinations)(BRACKET_FIELDS, 2):
                     for u in BRACKET_FIELDS:
                         for coef in ([2.0, -0.5], [-0.5, 2.0]):
                             if kw != "default" and coef[0] < 0:
